@@ -2,15 +2,19 @@ import DuneVerif.Model.C18
 /-! line-protocol driver for C18.
 
 Strings travel as one token: `-` is the empty string; letters, digits, `/`, `.`, `_` stand for
-themselves; every other byte is `~hh` (two lower-case hex digits).
+themselves; every other byte is `~hh` (two lower-case hex digits; `~00` is allowed).
 
   u <p>                 -> <processPath p> <prettyPath p false> <prettyPath p true> <prettyPath p> <pathIndicatesDirectory p>
-  b <x> <y>             -> <concatPaths x y> <relativePath x y | ERR:NotImplemented> <hasPrefix x y> <hasSuffix x y>
-  f <fmt> <arg>...      -> <formatString fmt args>      arg = d:<int> | s:<count>:<piece>  (piece repeated count times)
+  b <x> <y>             -> <concatPaths x y> <relativePath x y | ERR:NotImplemented> <hasPrefix x (cstr y)> <hasSuffix x (cstr y)>
+                           (hasPrefix/hasSuffix take the pattern as `const char*`: `cstr y` = y up to its first NUL)
+  f <fmt> <arg>...      -> <formatString fmt args> | ERR:Exception
+                           arg = d:<int> | l:<long> | u:<unsigned> | c:<char code> | w:<wint_t code> | s:<count>:<piece>
+  F <width>             -> ok | ERR:Exception : outcome class of formatString("%<width>d", 7), whose result is too long
+                           to build; computed with `formatReturns` (tied to formatString by theorem formatString_outcome)
 
-The `u` answer is computed with the character-level model; if the component-level spec `processPathS`
-disagrees on that input the driver prints `MODEL-SPLIT …` instead (so the C/S link is checked on every
-enumerated string as well).
+The `u` answer is computed with the character-level model; if the loop of pass 4 ran out of fuel the driver prints
+`FUEL-EXHAUSTED`, and if the component-level spec `processPathS` disagrees on that input it prints `MODEL-SPLIT …`
+instead (so termination and the C/S link are checked on every enumerated string as well).
 -/
 open DV DV.C18
 
@@ -25,7 +29,7 @@ def decAux : List Char → Option Str
   | [] => some []
   | '~' :: a :: b :: r =>
     match hexDigitVal? a, hexDigitVal? b, decAux r with
-    | some x, some y, some t => if x * 16 + y = 0 then none else some (Char.ofNat (x * 16 + y) :: t)
+    | some x, some y, some t => some (Char.ofNat (x * 16 + y) :: t)
     | _, _, _ => none
   | c :: r => if safeChar c then (decAux r).map (c :: ·) else none
 
@@ -40,10 +44,14 @@ def showRel : RelRes → String
 
 def parseArg (t : String) : Option FArg :=
   match t.splitOn ":" with
-  | ["d", i] => i.toInt?.map FArg.int
+  | ["d", i] => i.toInt?.bind fun v => if -2147483648 ≤ v ∧ v ≤ 2147483647 then some (FArg.int v) else none
+  | ["l", i] => i.toInt?.map FArg.long
+  | ["u", n] => n.toNat?.bind fun v => if v ≤ 4294967295 then some (FArg.uns v) else none
+  | ["c", n] => n.toNat?.bind fun v => if 1 ≤ v ∧ v ≤ 255 then some (FArg.chr v) else none
+  | ["w", n] => n.toNat?.bind fun v => if v ≤ 4294967295 then some (FArg.wchr v) else none
   | ["s", n, piece] =>
     match n.toNat?, decStr piece with
-    | some n, some p => some (.str (List.replicate n p).flatten)
+    | some n, some p => if p.contains (Char.ofNat 0) then none else some (.str (List.replicate n p).flatten)
     | _, _ => none
   | _ => none
 
@@ -53,7 +61,9 @@ def handle (line : String) : String :=
     match decStr p with
     | none => "bad-op"
     | some p =>
-      let c := processPathC p
+      match processPathC? p with
+      | none => "FUEL-EXHAUSTED"
+      | some c =>
       let s := processPathS p
       if c ≠ s then "MODEL-SPLIT C=" ++ encStr c ++ " S=" ++ encStr s
       else " ".intercalate [encStr c, encStr (prettyPath p false), encStr (prettyPath p true),
@@ -61,15 +71,29 @@ def handle (line : String) : String :=
   | ["b", x, y] =>
     match decStr x, decStr y with
     | some x, some y =>
-      " ".intercalate [encStr (concatPaths x y), showRel (relativePath x y), showB (hasPrefix x y), showB (hasSuffix x y)]
+      " ".intercalate [encStr (concatPaths x y), showRel (relativePath x y), showB (hasPrefix x (cstr y)),
+                       showB (hasSuffix x (cstr y))]
     | _, _ => "bad-op"
   | "f" :: fmt :: args =>
     match decStr fmt, args.mapM parseArg with
     | some fmt, some args =>
-      match formatIdeal (fmt.length + 1) fmt args with
-      | some ideal => encStr (formatString ideal)
-      | none => "bad-op"
+      let onlyDS := args.all fun a => match a with | .int _ => true | .str _ => true | _ => false
+      if fmt.contains (Char.ofNat 0) ∨ (onlyDS ∧ args.length > 4) ∨ (¬ onlyDS ∧ args.length > 2) then "bad-op"
+      else
+        let show_ (i : Option Str) : String :=
+          match formatString i with
+          | .ok t => encStr t
+          | .exception => "ERR:Exception"
+        match formatIdeal (fmt.length + 1) fmt args with
+        | .text ideal => show_ (some ideal)
+        | .convError => show_ none
+        | .outside => "bad-op"
     | _, _ => "bad-op"
+  | ["F", w] =>
+    if w.length > 18 then "bad-op" else
+    match w.toNat? with
+    | some n => if n < 1 then "bad-op" else if formatReturns n then "ok" else "ERR:Exception"
+    | none => "bad-op"
   | _ => "bad-op"
 
 def main : IO Unit := runDriver handle
